@@ -56,3 +56,23 @@ Print Assumptions C10_rows_partitioned.
 Theorem C10_fast_path_is_colour_model : forall k c, written_bytes k c = set_bytes k c.
 Proof. exact fast_path_is_model. Qed.
 Print Assumptions C10_fast_path_is_colour_model.
+
+(* src == dst: each pixel is read when it is processed, transformed by a function of its own bytes and
+   written back; for every origin, stride >= bpp*width, per-pixel function h and duplicate-free pixel
+   list in any order, the buffer equals the out-of-place result computed from the ORIGINAL buffer *)
+Theorem C10_in_place_equals_out_of_place : forall (B : Type) (dflt : B) X0 Y0 X1 Y1 stride bpp,
+  0 < bpp -> bpp * (X1 - X0) <= stride ->
+  forall (h : Z * Z -> list B -> list B) l b,
+  Forall (inrect X0 Y0 X1 Y1) l -> NoDup l ->
+  forall i, runi B dflt X0 Y0 stride bpp h l b i
+          = runo B dflt X0 Y0 stride bpp (fun p => h p (rd B X0 Y0 stride bpp b p)) l b i.
+Proof. exact inplace_equals_out_of_place. Qed.
+Print Assumptions C10_in_place_equals_out_of_place.
+
+Theorem C10_in_place_same_for_every_order : forall (B : Type) (dflt : B) X0 Y0 X1 Y1 stride bpp,
+  0 < bpp -> bpp * (X1 - X0) <= stride ->
+  forall (h : Z * Z -> list B -> list B) l1 l2 b,
+  Forall (inrect X0 Y0 X1 Y1) l1 -> NoDup l1 -> Permutation l1 l2 ->
+  forall i, runi B dflt X0 Y0 stride bpp h l1 b i = runi B dflt X0 Y0 stride bpp h l2 b i.
+Proof. exact inplace_order_irrelevant. Qed.
+Print Assumptions C10_in_place_same_for_every_order.
